@@ -128,6 +128,7 @@ func shapeOfResponse(ev *HostileEv, w *httptest.ResponseRecorder, h hreq) {
 
 var entryCT = map[string][]string{
 	"grpc": {"application/grpc"}, "grpc+proto": {"application/grpc+proto"}, "grpc+json": {"application/grpc+json"},
+	"grpc+body": {"application/grpc+body"}, "web+body": {"application/grpc-web+body", "application/grpc-web-text+body"},
 	"grpc+zz": {"application/grpc+zz", "application/grpc+"}, "grpcx": {"application/grpcx", "application/grpc;v=1", "application/grpc proto"},
 	"web": {"application/grpc-web"}, "web+json": {"application/grpc-web+json"}, "webtext": {"application/grpc-web-text"},
 	"webtext+json": {"application/grpc-web-text+json"}, "web+zz": {"application/grpc-web+zz", "application/grpc-web-text+zz"},
